@@ -214,3 +214,32 @@ func describeErr(err error) string {
 	}
 	return fmt.Sprintf("%T:%v", err, err)
 }
+
+// runSessionTapSent is runSession with a tap on what A writes (before in-flight
+// edits) and a finite budget after which the link is killed (damaged streams
+// can leave both sides waiting for each other).
+func runSessionTapSent(sim *core.Sim, a, b *stationRT, sp SessionPlan, tapA, seenB func([]byte), budget time.Duration) (ra, rb *sessResult, link *pipe.Link, ok bool) {
+	a.h.NextSession()
+	b.h.NextSession()
+	a.h.FailInboundAt, b.h.FailInboundAt = sp.FailInboundA, sp.FailInboundB
+	link = pipe.New(sim, sp.Link)
+	link.Tap(seenB, nil)
+	ra, rb = &sessResult{}, &sessResult{}
+	sa := a.session(b, sp.AMaster)
+	sb := b.session(a, !sp.AMaster)
+	var ca net.Conn = pipe.WithCaps(link.A, sp.Link.CapsA)
+	if tapA != nil {
+		ca = tapConn{link.A, tapA}
+	}
+	ga := a.exchange(sim, sa, ca, link.A, ra)
+	gb := b.exchange(sim, sb, pipe.WithCaps(link.B, sp.Link.CapsB), link.B, rb)
+	ok = core.WaitAll(budget, ga, gb)
+	if !ok {
+		link.Kill()
+		core.WaitAll(10*time.Minute, ga, gb)
+		link.A.Close()
+		link.B.Close()
+		core.WaitAll(time.Hour, ga, gb)
+	}
+	return
+}
